@@ -28,10 +28,13 @@
 #include "vcommon.h"
 
 #define libxmp_virt_reset spy_libxmp_virt_reset
+#define libxmp_scan_sequences spy_libxmp_scan_sequences	/* xmp_set_player's rescans are counted */
 #include "control.c"
 #include "player.c"
 #undef libxmp_virt_reset
+#undef libxmp_scan_sequences
 void libxmp_virt_reset(struct context_data *);
+int libxmp_scan_sequences(struct context_data *);
 #include "loaders/loader.h"
 
 void libxmp_load_prologue(struct context_data *);
@@ -46,12 +49,23 @@ static void fmt_state(char *buf, size_t n, struct context_data *ctx)
 {
 	struct player_data *p = &ctx->p;
 	struct flow_control *f = &p->flow;
-	snprintf(buf, n, "%d %d %d %d %d %d %d %d %d %d %d %d %d %d %d %d %d %d %d %d %d %d %d %d %d",
+	snprintf(buf, n, "%d %d %d %d %d %d %d %d %d %d %d %d %d %d %d %d %d %d %d %d %d %d %d %d %d %d",
 		 ctx->state >= XMP_STATE_PLAYING, p->ord, p->pos, p->row, p->frame, p->speed, p->bpm,
 		 p->gvol, p->loop_count, p->sequence, p->st26_speed,
 		 f->pbreak, f->jump, f->delay, f->jumpline, f->loop_dest, f->loop_param, f->loop_start,
 		 f->loop_count, f->loop_active_num, f->jump_in_pat, f->num_rows, f->end_point,
-		 f->rowdelay, f->rowdelay_set);
+		 f->rowdelay, f->rowdelay_set, p->flags);
+}
+
+static int rescans, rescan_failed;
+
+int spy_libxmp_scan_sequences(struct context_data *ctx)
+{
+	int r = libxmp_scan_sequences(ctx);
+	rescans++;
+	if (r < 0)
+		rescan_failed++;
+	return r;
 }
 
 static int mid_seen, mid_clean;
@@ -239,9 +253,10 @@ static void dump_module(struct context_data *ctx, const char *name)
 
 /* ---------------------------------------------------------------- cases */
 
-enum { OP_SETPOS, OP_NEXT, OP_PREV, OP_SETROW, OP_SEEK, OP_RESTART, OP_STOP, OP_START, OP_N };
+enum { OP_SETPOS, OP_NEXT, OP_PREV, OP_SETROW, OP_SEEK, OP_RESTART, OP_STOP, OP_START, OP_FLAGS, OP_CFLAGS, OP_MODE, OP_N };
 static const char *const opname[OP_N] = { "set_position", "next_position", "prev_position", "set_row",
-					   "seek_time", "restart_module", "stop_module", "start_player" };
+					   "seek_time", "restart_module", "stop_module", "start_player",
+					   "set_flags", "set_cflags", "set_mode" };
 
 static struct context_data *C;
 static xmp_context X;
@@ -258,6 +273,35 @@ static void track_setpos(int t)
 {
 	if (t >= 0 && t < C->m.mod.len && C->p.sequence_control[t] != 0xff)
 		exp_seq = C->p.sequence_control[t];
+}
+
+/* linear modules: the time at which straight playback really enters each order of the main
+ * sequence in the timing mode in force, measured by rendering one pass (-1: not entered) */
+static double real_time[XMP_MAX_MOD_LENGTH];
+static int real_valid;
+
+static void dump_module(struct context_data *ctx, const char *name);
+static const char *cur_path = "?";
+
+static void measure_times(int as_step)
+{
+	struct player_data *p = &C->p;
+	double t = 0;
+	int i, n = 0, last = -1;
+	for (i = 0; i < XMP_MAX_MOD_LENGTH; i++)
+		real_time[i] = -1;
+	fprintf(O, as_step ? "s measure\n" : "s measured\n");
+	xmp_restart_module(X);
+	alarm(60);
+	while (n < 400000 && xmp_play_frame(X) == 0 && p->loop_count == 0) {
+		if (p->ord != last && p->ord >= 0 && p->ord < XMP_MAX_MOD_LENGTH && real_time[p->ord] < 0)
+			real_time[p->ord] = t;
+		last = p->ord;
+		t += p->frame_time;
+		n++;
+	}
+	alarm(0);
+	real_valid = 1;
 }
 
 #define RATE 8000
@@ -359,6 +403,7 @@ static void do_case(int op, int arg)
 		xmp_end_player(X);
 	}
 	fprintf(O, "case %d\n", case_no++);
+	rescans = rescan_failed = 0;
 	fmt_state(pre, sizeof pre, C);
 	fprintf(O, "pre %s\nop %s %d\n", pre, opname[op], arg);
 	fflush(O);
@@ -373,6 +418,9 @@ static void do_case(int op, int arg)
 	case OP_RESTART: xmp_restart_module(X); break;
 	case OP_STOP: xmp_stop_module(X); break;
 	case OP_START: ret = xmp_start_player(X, RATE, FORMAT); break;
+	case OP_FLAGS: ret = xmp_set_player(X, XMP_PLAYER_FLAGS, arg); break;
+	case OP_CFLAGS: ret = xmp_set_player(X, XMP_PLAYER_CFLAGS, arg); break;
+	case OP_MODE: ret = xmp_set_player(X, XMP_PLAYER_MODE, arg); break;
 	}
 	fmt_state(post, sizeof post, C);
 	fprintf(O, "ret %d\npost %s\n", ret, post);
@@ -384,6 +432,17 @@ static void do_case(int op, int arg)
 		}
 		xmp_set_player(X, XMP_PLAYER_INTERP, XMP_INTERP_NEAREST);
 		exp_seq = 0;
+	}
+	if (op >= OP_FLAGS) {
+		/* parameter calls: did the scan re-run, how many sequences are there now */
+		fprintf(O, "rescan %d %d %d\n", rescans > 0, m->num_sequences, rescan_failed == 0);
+		if (rescans > 0) {
+			dump_module(C, cur_path);
+			if (exp_seq >= m->num_sequences)
+				exp_seq = 0;
+			len = mod->len;
+			marker = HAS_QUIRK(QUIRK_MARKER) ? 1 : 0;
+		}
 	}
 	mid_seen = 0;
 	snprintf(cur_what, sizeof cur_what, "%s+frame", opname[op]);
@@ -509,6 +568,20 @@ static void do_case(int op, int arg)
 				cand = i;
 				break;
 			}
+		if (linear_mod && real_valid && pre_seq == 0) {
+			/* judged against the measured entry times of the timing mode in force */
+			int rc_ = -1, amb = 0;
+			for (i = 0; i < len; i++)
+				if (real_time[i] >= 0 && member(i, 0)) {
+					if (real_time[i] - arg > -1.5 && real_time[i] - arg < 1.5)
+						amb = 1;
+					if (real_time[i] <= arg)
+						rc_ = i > rc_ ? i : rc_;
+				}
+			if (!amb && rc_ >= 0 && ret != rc_)
+				FAIL("land:xmp_seek_time(times-in-force)", "seek_time(%d): playback in the timing mode in force (flags %d) enters order %d at %.1f ms (last one not after %d), the call selected order %d",
+				     arg, p->flags, rc_, real_time[rc_], arg, ret);
+		}
 		if (cand >= 0 && valid_ord(cand)) {
 			int same = cand == pre_ord && cand != 0;
 			cls = same ? "seek:same-order" : "seek:landing";
@@ -574,6 +647,27 @@ static void do_case(int op, int arg)
 		if (rc != -XMP_END)
 			FAIL("end:xmp_stop_module", "frame after xmp_stop_module returned %d", rc);
 		break;
+	case OP_FLAGS:
+	case OP_CFLAGS:
+	case OP_MODE:
+		cls = op == OP_FLAGS ? "set_flags" : op == OP_CFLAGS ? (rescans ? "set_cflags:rescan" : "set_cflags:same-timing") : "set_mode";
+		if (op != OP_MODE && ret != 0)
+			FAIL("ret:xmp_set_player", "%s(%d) returned %d", opname[op], arg, ret);
+		if (op == OP_MODE && (arg < XMP_MODE_AUTO || arg > XMP_MODE_ITSMP) && (ret != -XMP_ERROR_INVALID || strcmp(pre, post)))
+			FAIL("refuse:xmp_set_player", "set_mode(%d) returned %d or changed state", arg, ret);
+		if (linear_mod && !failed) {
+			/* the order times that position control uses must be those of the timing mode in force:
+			 * render one pass of straight playback and compare the time each order is really entered */
+			measure_times(0);
+			for (i = 0; i < mod->len; i++)
+				if (real_time[i] >= 0 && p->sequence_control[i] == 0 &&
+				    (real_time[i] - m->xxo_info[i].time > 1.5 || real_time[i] - m->xxo_info[i].time < -1.5)) {
+					FAIL("times:xmp_set_player", "after %s(%d) (flags now %d): playback enters order %d at %.1f ms, the table used by xmp_seek_time says %d ms",
+					     opname[op], arg, p->flags, i, real_time[i], m->xxo_info[i].time);
+					break;
+				}
+		}
+		break;
 	case OP_START: {
 		/* a (re)started player plays the main sequence from its first pattern */
 		int t = 0;
@@ -638,8 +732,12 @@ static void gen_cases(int thorough, int ncases)
 		}
 		step_play(after_start ? vrng_range(0, 3) : vrng_chance(70) ? vrng_range(0, 12) : vrng_range(0, 90));
 		/* pending flow state: injected jump / break / pattern delay / pattern loop / row delay */
-		if (linear_mod && vrng_chance(50))
-			r = 92;		/* restart, followed by the duration oracle */
+		if (linear_mod && vrng_chance(35))
+			r = 93;		/* restart, followed by the duration oracle */
+		else if (linear_mod && vrng_chance(30))
+			r = 80;		/* seek, judged against the measured entry times */
+		else if (linear_mod && vrng_chance(35))
+			r = 90;		/* timing mode change */
 		if (mod->chn > 0 && vrng_chance(45) && !linear_mod) {
 			int c = vrng_below(mod->chn), w = vrng_below(7);
 			switch (w) {
@@ -705,8 +803,24 @@ static void gen_cases(int thorough, int ncases)
 				arg = clampi((long long)m->xxo_info[i].time + d);
 				if (vrng_chance(10))
 					arg = vrng_chance(50) ? -1 - (int)vrng_below(1000) : clampi((long long)p->scan[p->sequence].time + vrng_range(-2, 500));
-				if (vrng_chance(10))
+				if (vrng_chance(linear_mod ? 70 : 10))
 					arg = vrng_below(p->scan[p->sequence].time > 0 ? p->scan[p->sequence].time : 1);
+			}
+		} else if (r < 92) {
+			/* timing mode / personality changes between the position calls */
+			int w = vrng_below(linear_mod ? 8 : 10);
+			if (w < 5) {
+				op = OP_CFLAGS;
+				arg = vrng_chance(50) ? XMP_FLAGS_VBLANK : 0;
+				if (vrng_chance(15))
+					arg |= XMP_FLAGS_FX9BUG;
+			} else if (w < 8) {
+				op = OP_FLAGS;
+				arg = vrng_chance(50) ? XMP_FLAGS_VBLANK : 0;
+			} else {
+				op = OP_MODE;
+				arg = vrng_chance(12) ? (vrng_chance(50) ? -1 : XMP_MODE_ITSMP + 1) :
+				      mod->pat > 254 ? vrng_range(XMP_MODE_AUTO, XMP_MODE_PROTRACKER) : vrng_range(XMP_MODE_AUTO, XMP_MODE_ITSMP);
 			}
 		} else if (r < 94) {
 			op = OP_RESTART;
@@ -734,6 +848,8 @@ static int open_module(const char *path)
 	int rc;
 	const char *bn = strrchr(path, '/');
 	linear_mod = strncmp(bn ? bn + 1 : path, "lin", 3) == 0;
+	real_valid = 0;
+	cur_path = path;
 	X = xmp_create_context();
 	C = (struct context_data *)X;
 	snprintf(cur_what, sizeof cur_what, "load");
@@ -796,7 +912,9 @@ static int run_script(const char *path, const char *script)
 			step_plain("restart");
 		else if (!strcmp(w, "next") || !strcmp(w, "prev") || !strcmp(w, "seek"))
 			step_call(w, a);
-		else if (!strcmp(w, "pass"))
+		else if (!strcmp(w, "measure"))
+			measure_times(1);
+		else if (!strcmp(w, "pass") || !strcmp(w, "measured"))
 			;	/* rendered by the restart case of a linear module itself */
 		else if (!strcmp(w, "endplayer"))
 			;	/* emitted by the start_player case itself */
@@ -837,6 +955,8 @@ int main(int argc, char **argv)
 			fprintf(O, "file %s\n", argv[i]);
 			dump_module(C, argv[i]);
 			case_no = 0;
+			if (linear_mod)
+				measure_times(1);
 			gen_cases(thorough, ncases);
 			fprintf(O, "endmod\n");
 			close_module();
